@@ -71,7 +71,7 @@ harnesses! {
             i += 1;
         }
         let r = base_sampler(bytes);
-        assert!(r == expect, "C09.base: base_sampler(u) == #{i : u < RCDT[i]}");
+        assert!(r == expect, "C09.base: base_sampler(u) == number of i with u < RCDT[i]");
         assert!(0 <= r && r <= 18, "C09.base.range");
         vcover!(r == 18, "reach: z0 = 18");
         vcover!(r == 0, "reach: z0 = 0");
